@@ -4,9 +4,10 @@
       site 1  p.Meta.(meta.HasDefinitions)   - a step below a leaf, leaf-list or choice
       site 2  seg.Meta.( *meta.List)          - a key on a segment that is not a list
     ([old = true] is the code before commits d2f10c0 / 249fcce, where both panic).
+    An ident containing '/' after unescaping (%2F) is "not found" since commit 7b2b71b (before, meta.Find
+    navigated it as a schema path and the segment resolved to a node that is no child of its parent).
     Outside the model: net/url (QueryUnescape is transcribed: %XX and '+'), the conversion of key
-    strings other than string / integer types ([KtOther] -> [MUnmodelled]), idents containing '/'
-    after unescaping (meta.Find then navigates), the query part, and everything after parsing
+    strings other than string / integer types ([KtOther] -> [MUnmodelled]), the query part, and everything after parsing
     (findSlice against the data: [MOkOrErr]).
     Assumption of the worlds: module prefix = module name, no imports/augments. *)
 From Coq Require Import ZArith NArith List Bool Strings.Byte.
@@ -179,7 +180,7 @@ Definition step (old : bool) (modname : ident) (is_root : bool) (cur : nref) (se
           match cur with
           | NChoice | NSk (SkLeaf _ _ _ _) => SStop (if old then MPanic 1 else MErr)
           | NSk s =>
-              if existsb (Byte.eqb x2f) id then SStop MUnmodelled
+              if existsb (Byte.eqb x2f) id then SStop (if old then MUnmodelled else MErr)   (* 7b2b71b *)
               else
                 match find_seg is_root modname s id with
                 | None => SStop MErr
